@@ -211,7 +211,7 @@ def render(consts, missing):
         if name in consts:
             c = consts[name]
             fr = c['value']
-            L.append('/-- `%s` at %s -/' % (c['text'], c['where']))
+            L.append('/-- `%s` in %s -/' % (c['text'], c['where'].split(':')[0]))
             L.append('def %s : RatLit := ⟨%d, %d⟩' % (name, fr.numerator, fr.denominator))
         else:
             L.append('/-- NOT FOUND in the current source -/')
